@@ -169,11 +169,12 @@ def gen_call(rng, n):
     c = rng.choice(["recv_until", "recv_until", "recv_until", "recv_size", "recv_size", "peek", "recv_close", "recv"])
     call = {"c": c, "size": 0, "delim": [], "maxsize": 0, "withd": False}
     if c == "recv_until":
-        call["delim"] = rng.choice([[D1], [D1, D2], [D2]])
+        # one and two bytes, self-overlapping, three bytes, and one that contains a payload byte
+        call["delim"] = rng.choice([[D1], [D1, D2], [D2], [D1, D1], [D1, D2, D1], [A, D1], [D2, D2, D2]])
         call["maxsize"] = rng.choice([1, 2, 3, 4, n + 2, 1000])
         call["withd"] = rng.random() < 0.4
     elif c in ("recv_size", "peek", "recv"):
-        call["size"] = rng.choice([1, 1, 2, 3, 4, max(1, n), n + 1])
+        call["size"] = rng.choice([1, 1, 2, 3, 4, max(1, n), n + 1])      # (size 0: the statement does not say what a zero-byte read at end of stream is)
     else:
         call["maxsize"] = rng.choice([1, 2, 3, n, n + 1, 1000])
     return call
@@ -243,6 +244,7 @@ def send_session(rng):
         c = rng.choice(["send", "send", "sendall", "buffer", "flush"])
         data = [] if c == "flush" else [rng.choice([A, 2, D1]) for _ in range(rng.randint(0, 5))]
         first = True
+        retry_call, retry_data = "flush", []
         for attempt in range(12):
             try:
                 if c == "buffer" and first:
@@ -252,14 +254,26 @@ def send_session(rng):
                     ret = getattr(bs, c)(enc(data))
                     r = {"e": "ok", "v": [ret if isinstance(ret, int) else -7]}
                 else:
-                    bs.flush()          # retry after a Timeout: the data is already in the send buffer
+                    # after a Timeout the unsent remainder sits in the send buffer: flush it, or go straight on with
+                    # the next send / sendall / buffer of more data behind it
+                    retry = "flush" if first else rng.choice(["flush", "flush", "send", "sendall", "buffer"])
+                    more = [] if retry == "flush" else [rng.choice([A, 2, D1]) for _ in range(rng.randint(0, 3))]
+                    retry_call, retry_data = retry, more
+                    if retry == "flush":
+                        bs.flush()
+                    elif retry == "buffer":
+                        bs.buffer(enc(more))
+                    else:
+                        getattr(bs, retry)(enc(more))
                     r = {"e": "ok", "v": []}
             except su.Timeout:
                 r = {"e": "Timeout", "v": []}
             except Exception as ex:
                 r = {"e": exc(ex), "v": []}
-            evs.append({"call": c if first else "flush", "data": data if first else [], "r": r, "wire": dec(fs.wire),
+            evs.append({"call": c if first else retry_call, "data": data if first else retry_data, "r": r, "wire": dec(fs.wire),
                         "sbuf": dec(bs.getsendbuffer())})
+            if not first and retry_call == "buffer" and r["e"] == "ok":
+                r = dict(r, e="Timeout")        # (buffering sends nothing: keep retrying until a sending call completes)
             first = False
             if r["e"] != "Timeout":
                 break
